@@ -239,7 +239,9 @@ def doOp (d : D) : SOp → D
   | .acc f p =>
     let sk := d.socks.getD f {}
     if f < d.socks.length && sk.kind == 5 then
-      noteIssue { d with st := opStep d.st (.setIo (sockFd d (some f)) .rd true .sysErr) } d.st.next p none sk.gen none (some "i") 2 0 f
+      match sockFd d (some f) with
+      | none => noteIssue { d with st := opStep d.st (.postEv .badf 0) } d.st.next p none 0 none (some "i")   -- dont_block fails: posted
+      | some fd => noteIssue { d with st := opStep d.st (.setIo (some fd) .rd true .sysErr) } d.st.next p none sk.gen none (some "i") 2 0 f
     else { d with bad := true }
   | .readAll f n p =>
     let sk := d.socks.getD f {}
